@@ -71,6 +71,8 @@ def expand(op, blk):
         return [(100, [op[1]], []), (6, [], []), (101, [], []), (103, [10], [])]
     if k == 'slow_read':        # the ECU answers after the client has given up; the answer arrives while the client is idle
         return [(102, [op[3]], []), (17, a_memloc(op[1], op[2], None, None), []), (102, [0], []), (103, [op[3] + 10], [])]
+    if k == 'reuse_objects':    # from here on the application keeps one MemoryLocation object and moves it along
+        return [(104, [1], [])]
     if k == 'slow_write_did':
         return [(102, [op[3]], []), (25, [op[1]], [op[2]]), (102, [0], []), (103, [op[3] + 10], [])]
     raise RuntimeError(k)
@@ -155,17 +157,28 @@ def gen_cases(tier, seed):
                 yield make_case(cfgv, blk, [('write_mem', 0x1000, data, None, None), ('write_mem', 0x3000, data[::-1], None, None), bad,
                                             ('read_mem', 0x3000, len(data), None, None), ('read_mem', 0x1000, len(data), None, None),
                                             ('write_did', 0xF190, b'ABC'), ('read_dids', [0xF190])], 'unread answer left behind')
+            # one MemoryLocation object moved along across a byte-width boundary of the address and of the size
+            walk = [('reuse_objects',)]
+            for addr in (0xFFF0, 0xFFFC, 0x10000, 0x10008, 0xFFFFFC, 0x1000000):
+                walk += [('write_mem', addr, data[:8], None, None), ('read_mem', addr, 8, None, None)]
+            walk += [('write_mem', 0x20, bytes(range(255)), None, None), ('write_mem', 0x400, bytes(range(200)) + bytes(range(60)), None, None),
+                     ('read_mem', 0x400, 260, None, None), ('read_mem', 0x20, 255, None, None),
+                     ('download', 0xFFFE, data, None, None), ('download', 0x10000, data, None, None), ('read_mem', 0x10000, len(data), None, None)]
+            yield make_case(cfgv, blk, walk, 'one MemoryLocation object moved along')
             yield make_case(cfgv, blk, [('write_did', 0xF190, b'ABC'), ('read_dids', [0xF190]), ('write_mem', 0x1000, data, None, None),
                                         ('read_mem', 0x1000, len(data), None, None), ('download', 0x2000, data, None, None),
                                         ('read_mem', 0x2000, len(data), None, None), ('read_mem', 0x2005, 7, None, 16)], 'systematic')
-    for _ in range(n):
+    for it in range(n):
         cfgv = list(cl.DEFAULT_CFG)
         cfgv[cl.SRV_ADDR] = rnd.choice([-1, 16, 32, 64])
         cfgv[cl.SRV_SIZE] = rnd.choice([-1, 16, 32])
         cfgv[cl.ALGO] = rnd.choice([0, 1, 3])
         cfgv[cl.EX_NEG] = rnd.choice([1, 1, 0])
         blk = rnd.choice([3, 4, 7, 0x20, 0x402])
-        yield make_case(cfgv, blk, gen_ops(rnd, rnd.randrange(1, m + 1), blk), 'random history')
+        ops = gen_ops(rnd, rnd.randrange(1, m + 1), blk)
+        if it % 3 == 0:
+            ops = [('reuse_objects',)] + ops
+        yield make_case(cfgv, blk, ops, 'random history' + (' (argument objects reused)' if it % 3 == 0 else ''))
 
 
 def worker_init():
@@ -233,6 +246,9 @@ def impl(c):
             continue
         if callid == 103:
             clk.us += args[0]
+            continue
+        if callid == 104:
+            client._verif_reuse_memloc = True
             continue
         conn.log = []
         state['start'], state['k'] = clk.us, 0
